@@ -172,6 +172,7 @@ func (m *Module) startCtrlFn(name string, fn func() error) chan error {
 
 		// Recover from panic and reset control function signal.
 		defer func() {
+			vhook.AtS("modules.ctrlfn.done", m.Name)
 			// recover from panic
 			panicVal := recover()
 			if panicVal != nil {
@@ -186,6 +187,7 @@ func (m *Module) startCtrlFn(name string, fn func() error) chan error {
 			// resetting the flag after that would mark it as finished instead.
 			m.ctrlFuncRunning.UnSet()
 			ctrlFnError <- err
+			vhook.AtS("modules.ctrlfn.sent", m.Name)
 			m.checkIfStopComplete()
 		}()
 
